@@ -205,6 +205,18 @@ def judge(cfg: Config, x: Fraction, r, *, integer_valued_input=None):
     s = cfg.step
     int_input = x.denominator == 1 if integer_valued_input is None else integer_valued_input
     exact = is_int_fmt and int_input and cfg.integer_params
+    if is_int_fmt and not cfg.integer_params:
+        # an integer format whose declared bounds / step are fractional: the grid holds points no integer can represent, so the only thing the
+        # statement pins down is an integer-valued input that IS a grid point ("exactly so for integer formats given integer-valued inputs"):
+        # it comes back unchanged.  Everything else is left unjudged (type aside).
+        on_grid = s is None or ((c - cfg.origin) / s).denominator == 1
+        if int_input and c.denominator == 1 and on_grid:
+            facts["mode"] = "int-exact-fractional-params"
+            if rv != c:
+                out.append(("int-format-not-exact", {"want": [int(c)], "got": r, "clamped_input": int(c)}))
+        else:
+            facts["mode"] = "unjudged-int-format-fractional-params"
+        return out, facts
     facts["mode"] = "int-exact" if exact else "six-digit"
 
     if exact:
